@@ -608,9 +608,12 @@ pub fn cases(tier: Tier) -> Vec<Case> {
     // chain and star on 4 currencies
     markets.push(Market { n: 4, quotes: vec![(0, 1), (2, 1), (2, 3)], settle: false, base: None });
     markets.push(Market { n: 4, quotes: vec![(1, 0), (0, 2), (3, 0)], settle: true, base: Some(3) });
-    if tier == Tier::Thorough {
-        for edges in prufer_trees(4) {
-            markets.push(Market { n: 4, quotes: edges.iter().enumerate().map(|(i, (a, b))| if i % 2 == 1 { (*b, *a) } else { (*a, *b) }).collect(), settle: false, base: Some(1) });
+    for (ti, edges) in prufer_trees(4).iter().enumerate() {
+        // quick: every labelled tree on 4 currencies in one (alternating) orientation; thorough: every orientation
+        let orients: Vec<usize> = if tier == Tier::Thorough { (0..8).collect() } else { vec![0b010] };
+        for orient in orients {
+            let q: Vec<(usize, usize)> = edges.iter().enumerate().map(|(i, (a, b))| if orient & (1 << i) != 0 { (*b, *a) } else { (*a, *b) }).collect();
+            markets.push(Market { n: 4, quotes: q, settle: ti % 2 == 1, base: if ti % 3 == 0 { None } else { Some(ti % 4) } });
         }
     }
     for m in markets {
@@ -667,8 +670,8 @@ pub fn run(ctx: &Ctx, replay_file: Option<String>) -> ! {
          every entry by name) - no abstraction. Actions (all enabled in every state): update with every non-empty \
          subset of the quotes x every assignment from a 2-3 value table x {floats, Duals}; five kinds of refused update \
          (reversed pair, unquoted pair, foreign currency, inconsistent settlement, one valid + one invalid quote); \
-         set_ad_order(0|1|2). Markets: every tree on 2-3 currencies in every orientation, a chain and a star on 4, with \
-         and without settlement, different bases. On every transition: a refused update returns Err and leaves the \
+         set_ad_order(0|1|2). Markets: every tree on 2-3 currencies in every orientation, every labelled tree on 4 currencies (one \
+         orientation each; all orientations in the thorough tier), with and without settlement, different bases. On every transition: a refused update returns Err and leaves the \
          content unchanged; set_ad_order sets the kind and changes no value by more than 4 ulp; in every state the \
          stored quotes are the latest ones and all rates equal (1e-12; as dual numbers by name at order 1 and 2) those \
          of FXRates::try_new(latest quotes, same base). The search runs to the fixpoint (frontier empty), so histories \
